@@ -606,6 +606,7 @@ EXTERNAL_CONSTS.update({
     'fvm_shared::econ::TokenAmount::PRECISION': IntV(10**18, 'u64'), 'TokenAmount::PRECISION': IntV(10**18, 'u64'),
     'TokenAmount::DECIMALS': IntV(18, 'usize'),
     'NO_ALLOCATION_ID': IntV(0, 'u64'),
+    'frc46_token::token::TOKEN_PRECISION': IntV(10**18, 'u64'), 'TOKEN_PRECISION': IntV(10**18, 'u64'), 'token::TOKEN_PRECISION': IntV(10**18, 'u64'),
     'fvm_shared::randomness::RANDOMNESS_LENGTH': IntV(32, 'usize'), 'RANDOMNESS_LENGTH': IntV(32, 'usize'),
     'fvm_shared::event::Flags::FLAG_INDEXED_ALL': StructV('Flags', {0: IntV(3, 'u64')}), 'Flags::FLAG_INDEXED_ALL': StructV('Flags', {0: IntV(3, 'u64')}),
     'Flags::FLAG_INDEXED_KEY': StructV('Flags', {0: IntV(1, 'u64')}), 'Flags::FLAG_INDEXED_VALUE': StructV('Flags', {0: IntV(2, 'u64')}),
@@ -712,7 +713,7 @@ def _(E, c):
 
 
 @model('IpldBlock::deserialize', 'RawBytes::deserialize', 'from_slice', 'fvm_ipld_encoding::from_slice', 'deserialize',
-       'deserialize_params')
+       'deserialize_params', 'cbor::deserialize', 'cbor::deserialize_params')
 def _(E, c):
     T = c.generics[0] if c.generics else None
     if T is None or T == '_':
@@ -2021,3 +2022,114 @@ def _(E, c):
     tbl.append((k.v, b))
     E.ctx.assume(z3.Implies(b, z3.Int(v.name + '#card') >= 1))
     return b
+
+
+def _opaque_field(E, v, idx, fty):
+    if v.kind == 'bytes' and idx == 0:
+        return v          # BytesKey(Vec<u8>) and similar byte newtypes collapse onto the byte string
+    raise Inconclusive('field %d of %r' % (idx, v))
+
+
+SPECIAL_FIELD[OpaqueV] = _opaque_field
+
+
+# =======================================================================================
+# MapMap<BS, V, K1, K2> (runtime/src/util/mapmap.rs, a two-level HAMT with an inner-map cache) modelled as ONE flat map
+# keyed by the pair (k1, k2).  Declared cut: the wrapper's caching/flush logic is trusted; actor code above it is executed.
+
+def _mm_vty(c):
+    gens = c.callee.generics
+    for i, name in enumerate(c.callee.idents):
+        if name == 'MapMap' and gens[i]:
+            g = [x for x in gens[i] if not x.startswith("'")]
+            return g[1] if len(g) > 1 else None
+    q = c.callee.qself
+    if q and type_head(q) == 'MapMap':
+        a = [x for x in type_args(q) if not x.startswith("'")]
+        return a[1] if len(a) > 1 else None
+    return None
+
+
+def _mm_key(E, k1, k2):
+    return ('pair',) + key_term(E, k1)[1:] + key_term(E, k2)[1:]
+
+
+@model('MapMap::new')
+def _(E, c):
+    return MapM(None, (), _mm_vty(c), 'mapmap')
+
+
+@model('MapMap::from_root')
+def _(E, c):
+    cid = cid_of(E, c.args[1])
+    m = load_map(E, cid, _mm_vty(c), 'mapmap')
+    return ok(m, c.dest_ty)
+
+
+@model('MapMap::flush')
+def _(E, c):
+    return ok(new_cid(E, map_of(E, c.args[0]), 'mmroot'), c.dest_ty)
+
+
+@model('MapMap::get')
+def _(E, c):
+    m = map_of(E, c.args[0])
+    kv = StructV('tuple', {0: E.deref(c.args[1]), 1: E.deref(c.args[2])})
+    pres, val = map_lookup(E, m, _mm_key(E, c.args[1], c.args[2]), kv)
+    return ok(some(RefV(Cell(val, 'mmval'), ())) if pres else none(), c.dest_ty)
+
+
+@model('MapMap::put', 'MapMap::put_if_absent')
+def _(E, c):
+    m = map_of(E, c.args[0])
+    kv = StructV('tuple', {0: E.deref(c.args[1]), 1: E.deref(c.args[2])})
+    kt = _mm_key(E, c.args[1], c.args[2])
+    pres, old = map_lookup(E, m, kt, kv)
+    if c.callee.idents[-1] == 'put_if_absent':
+        if pres:
+            return ok(False, c.dest_ty)
+        E.store(c.args[0], map_set(m, kt, True, c.args[3], kv))
+        return ok(True, c.dest_ty)
+    E.store(c.args[0], map_set(m, kt, True, c.args[3], kv))
+    return ok(some(old) if pres else none(), c.dest_ty)
+
+
+@model('MapMap::put_many')
+def _(E, c):
+    m = map_of(E, c.args[0])
+    it = as_iter(E, c.args[2])
+    while True:
+        x = it.next(E)
+        if x is None:
+            break
+        x = E.deref(x)
+        kv = StructV('tuple', {0: E.deref(c.args[1]), 1: E.deref(x.fields[0])})
+        m = map_set(m, _mm_key(E, c.args[1], x.fields[0]), True, x.fields[1], kv)
+    E.store(c.args[0], m)
+    return ok(UNIT, c.dest_ty)
+
+
+@model('MapMap::remove')
+def _(E, c):
+    m = map_of(E, c.args[0])
+    kv = StructV('tuple', {0: E.deref(c.args[1]), 1: E.deref(c.args[2])})
+    kt = _mm_key(E, c.args[1], c.args[2])
+    pres, old = map_lookup(E, m, kt, kv)
+    if not pres:
+        return ok(none(), c.dest_ty)
+    E.store(c.args[0], map_set(m, kt, False, None, kv))
+    return ok(some(old), c.dest_ty)
+
+
+@model('MapMap::for_each_in')
+def _(E, c):
+    m = map_of(E, c.args[0])
+    k1 = key_term(E, c.args[1])[1:]
+    for (kt, val, kv) in map_entries(E, m):
+        if E.ctx.branch(key_eq(('x',) + tuple(kt[1:1 + len(k1)]), ('x',) + tuple(k1))):
+            inner = E.deref(kv.fields[1]) if kv is not None else None
+            r = E.call_callable(c.args[2], [RefV(Cell(OpaqueV('bytes', inner), 'k'), ()), RefV(Cell(val, 'v'), ())])
+            n, rv = variant(E, r)
+            if n == 'Err':
+                return err(payload(E, rv, 'Err'), c.dest_ty)
+    return ok(UNIT, c.dest_ty)
